@@ -104,7 +104,48 @@ pub fn run(ctx: Ctx) -> ! {
                 Some(s) if s as u64 == p.ledger_size => {}
                 other => found.add(format!("c36:traverse-size:{}", era.group()), nd, format!("MultiEraTx::size() = {other:?}, ledger size from the wire bytes = {}", p.ledger_size), &p.built, &p.verdict),
             }
-            let fp = format!("c36:size:{}", size_fn(era));
+            // Where do the validator's own boundaries lie for this fixture? Only used to name
+            // the defect: (smallest accepted fee - (a*L+b)) / a and smallest accepted limit - L.
+            let accepts_fee = |d: i64| {
+                let mut c = fx.clone();
+                c.tx.fee = FeeSpec::MinPlus(d);
+                let q = probe(&c);
+                note(&q);
+                q.verdict.accepted()
+            };
+            let a = params::MINFEE_A as i64;
+            let fee_off: Option<i64> = if accepts_fee(5 * a) && !accepts_fee(-5 * a) {
+                let (mut lo, mut hi) = (-5 * a, 5 * a); // lo rejected, hi accepted
+                while hi - lo > 1 {
+                    let mid = (lo + hi).div_euclid(2);
+                    if accepts_fee(mid) {
+                        hi = mid
+                    } else {
+                        lo = mid
+                    }
+                }
+                if hi.rem_euclid(a) == 0 {
+                    Some(hi / a)
+                } else {
+                    None
+                }
+            } else {
+                None
+            };
+            let lim_off: Option<i64> = (-4i64..=4).find(|d| {
+                let mut c = fx.clone();
+                c.env.max_tx_size = SizeSpec::LedgerPlus(*d);
+                let q = probe(&c);
+                note(&q);
+                q.verdict.accepted()
+            });
+            let model = match (fee_off, lim_off) {
+                (Some(f), Some(l)) if f == l && f == 1 => "whole-tx-with-validity-flag".to_string(),
+                (Some(f), Some(l)) if f == l && f == if fx.tx.aux { -1 } else { -2 } => "parts-without-array-head-and-null".to_string(),
+                (Some(f), Some(l)) if f == l => format!("offset{f:+}"),
+                (f, l) => format!("fee-offset{f:?}/limit-offset{l:?}"),
+            };
+            let fp = format!("c36:size:{}:{model}", size_fn(era));
             // fee boundary
             for (delta, want_ok) in [(0i64, true), (-1, false)] {
                 let mut c = fx.clone();
